@@ -3,6 +3,7 @@ package main
 // Path predicates on SSA control-flow graphs (DESIGN §3.C).
 
 import (
+	"go/constant"
 	"fmt"
 	"go/token"
 	"go/types"
@@ -127,6 +128,12 @@ func sameValD(a, b ssa.Value, d int) bool {
 	a, b = unwrap(a), unwrap(b)
 	if a == b {
 		return true
+	}
+	// two constants of the same numeric value (int64(52) and uint32(52) are one length)
+	if ca, ok := a.(*ssa.Const); ok {
+		if cb, ok := b.(*ssa.Const); ok && ca.Value != nil && cb.Value != nil && ca.Value.Kind() == constant.Int && cb.Value.Kind() == constant.Int {
+			return constant.Compare(ca.Value, token.EQL, cb.Value)
+		}
 	}
 	// a load of a local cell that is assigned exactly once (variables captured by a
 	// closure live in such cells) is the value assigned
